@@ -75,6 +75,10 @@ def run_locate(req, idx, ncells):
     else:
         base = np.random.default_rng(idx).choice([0.0, 1.0, 0.3], size=n)
     field = ScalarField(grid, (a * base + b).reshape(shape))
+    if idx % 5 == 4 and req["special"] != "const":
+        # an 8-bit image (camera data): the same picture with levels 100 .. 200 stored as uint8
+        a, b = 100.0, 100.0
+        field = ScalarField(grid, np.round(a * base + b).astype(np.uint8).reshape(shape), dtype=np.uint8)
     thr = a * 0.5 + b if req["thr"] == "0.5" else req["thr"]
     minrad = {"zero": 0, "one": 1.0, "ninf": -np.inf}[req["minrad"]]
     ra = {"none": None, "auto": {"vmin": None, "vmax": None}, "adjust": {"adjust_values": True, "vmin": b, "vmax": a + b},
